@@ -10,6 +10,12 @@ pub mod c12;
 pub mod c13;
 pub mod c13_grid;
 pub mod c13_model;
+pub mod c16;
+pub mod c16_exec;
+pub mod c16_exec2;
+pub mod c16_h;
+pub mod c16_ops;
+pub mod c16_sup;
 pub mod c19;
 pub mod c20;
 pub mod selftest;
@@ -26,6 +32,7 @@ pub fn run(id: &str, ctx: &mut Ctx) -> bool {
         "C11REPRO" => c11::repro(ctx),
         "C12" => c12::run(ctx),
         "C13" => c13::run(ctx),
+        "C16" => c16::run(ctx),
         "C19" => c19::run(ctx),
         "C20" => c20::run(ctx),
         _ => return false,
